@@ -177,7 +177,7 @@ def norm_inst(inst):
     procs = []
     for p in i["procs"]:
         q = dict(p)
-        for k in ("items", "values", "ins", "params", "outs"):
+        for k in ("items", "values", "ins", "params", "outs", "streams"):
             q.setdefault(k, [])
         q.setdefault("cores", 1)
         q["ins"] = sorted(q["ins"]); q["params"] = sorted(q["params"])
@@ -484,7 +484,10 @@ def normalize_flow(events, inst, end):
             out.append(dict(e="fail", proc=proc, key=key, msg=ev.get("msg", "")[:200]))
         elif e == "run.return":
             out.append(dict(e="run.return"))
-        # everything else (slots.*, audit.*, fin.*, fifo.*, ...) belongs to other acceptors
+        elif e in ("fifo.create", "fifo.remove"):
+            pth = ev["path"][:-5] if ev["path"].endswith(".fifo") else ev["path"]
+            out.append(dict(e=e, proc=ev["proc"], item=path_id(pth)))
+        # everything else (slots.*, audit.*, fin.*, ...) belongs to other acceptors
     out.append(dict(e="end", **end))
     return out
 
